@@ -472,7 +472,9 @@ pub fn sse42_multi_search(haystack: &[u8], chars: &[u8]) -> Option<usize> {
     if chars.is_empty() {
         return None;
     }
-    if !is_x86_feature_detected!("sse4.2") {
+    // PCMPESTRI compares against at most 16 set members; a larger set takes the scalar path
+    // (the vector loop used to ignore every member after the 16th).
+    if chars.len() > 16 || !is_x86_feature_detected!("sse4.2") {
         return scalar_multi_search(haystack, chars);
     }
 
